@@ -4,7 +4,7 @@
    four ..._refuted witnesses: several defaults, character defaults, integer 'missing', FLT64 precision).  What is proved for the
    code as it stands is the _partial theorem: the round trip is the identity exactly on the templates whose defaults the format carries. *)
 From Coq Require Import List ZArith NArith Arith Lia Bool.
-From V Require Import Walk Fm94 Fm94Exp Tmpl TmplProof.
+From V Require Import Walk Fm94 Fm94Exp Tmpl TmplProof Tmpl2 Tmpl2Proof.
 Import ListNotations.
 Local Open Scope Z_scope.
 
@@ -72,21 +72,22 @@ Theorem C18_compare_0_same_expansion : forall fuel T t1 t2, tcompare fuel T t1 t
 Proof. exact compare_0_expansion. Qed.
 Print Assumptions C18_compare_0_same_expansion.
 
-(* refusal: whatever the lines are, naming a descriptor no table knows, a number that is no descriptor, or an
-   ill-formed replication (Fm94Exp.well_nested) makes load refuse *)
-Theorem C18_load_rejects_unknown_descriptor : forall fuel T lines d,
-  unknown_desc T d -> In d (descs (parse_lines T lines)) -> load fuel T lines = Err Reject.
-Proof. exact load_rejects_unknown. Qed.
+(* refusal: whatever the lines are and however the defaults behind VALUE are read (vals: the current code's reader or the
+   corrected one), naming a descriptor no table knows, a number that is no descriptor, or an ill-formed replication
+   (Fm94Exp.well_nested) makes load refuse *)
+Theorem C18_load_rejects_unknown_descriptor : forall vals fuel T lines d,
+  unknown_desc T d -> In d (descs (parse_lines_gen vals T lines)) -> load_gen vals fuel T lines = Err Reject.
+Proof. exact load_gen_rejects_unknown. Qed.
 Print Assumptions C18_load_rejects_unknown_descriptor.
 
-Theorem C18_load_rejects_ill_formed_replication : forall fuel T lines,
-  well_nested (descs (parse_lines T lines)) = false -> load fuel T lines = Err Reject.
-Proof. exact load_rejects_ill_nested. Qed.
+Theorem C18_load_rejects_ill_formed_replication : forall vals fuel T lines,
+  well_nested (descs (parse_lines_gen vals T lines)) = false -> load_gen vals fuel T lines = Err Reject.
+Proof. exact load_gen_rejects_ill_nested. Qed.
 Print Assumptions C18_load_rejects_ill_formed_replication.
 
-Theorem C18_load_rejects_not_a_descriptor : forall fuel T lines d,
-  is_descriptor d = false -> In d (descs (parse_lines T lines)) -> load fuel T lines = Err Reject.
-Proof. exact load_rejects_not_a_descriptor. Qed.
+Theorem C18_load_rejects_not_a_descriptor : forall vals fuel T lines d,
+  is_descriptor d = false -> In d (descs (parse_lines_gen vals T lines)) -> load_gen vals fuel T lines = Err Reject.
+Proof. exact load_gen_rejects_not_a_descriptor. Qed.
 Print Assumptions C18_load_rejects_not_a_descriptor.
 
 (* the same on texts: the text of a descriptor list that contains an unknown descriptor / is ill nested is refused *)
@@ -143,6 +144,21 @@ Theorem C18_float_default_scale2_same_raw :
                 (m', e') <> (2402652809016115, -43) /\ quant 2 0 2402652809016115 (-43) = 27315 /\ quant 2 0 m' e' = 27315.
 Proof. exact w_float2_same_raw. Qed.
 Print Assumptions C18_float_default_scale2_same_raw.
+
+(* ---- the corrected text format (proposed_fixes/C18_template_text.md, model Tmpl2.v): the round trip is the identity on EVERY
+   template whose defaults have the element's own value type: any number of defaults per descriptor, -1, character values of
+   any bytes; for FLT64 under the IEEE/libc contract that 17 significant digits identify a double (dbl_carried) ---- *)
+Theorem C18_fixed_format_save_load_id : forall fuel T t,
+  wf_template fuel T t -> carried2 T t -> load2_text fuel T (save2_text t) = Ok t.
+Proof. exact save2_load2_id. Qed.
+Print Assumptions C18_fixed_format_save_load_id.
+
+Theorem C18_fixed_format_carries_witnesses :
+  load2_text 100 T0 (save2_text w_multi) = Ok w_multi /\ load2_text 100 T0 (save2_text w_multi2) = Ok w_multi2 /\
+  load2_text 100 T0 (save2_text w_string) = Ok w_string /\ load2_text 100 T0 (save2_text w_intmissing) = Ok w_intmissing /\
+  load2_text 100 T0 (save2_text w_float5) = Ok w_float5 /\ load2_text 100 T0 (save2_text w_float2) = Ok w_float2.
+Proof. exact fixed_format_carries_witnesses. Qed.
+Print Assumptions C18_fixed_format_carries_witnesses.
 
 (* the hypotheses of the partial theorem are satisfiable: a template with an integer, a FLT64 and a replication-count default *)
 Example C18_partial_hypotheses_satisfiable : wf_template 100 T0 w_good /\ carried T0 w_good /\ natural T0 w_good.
